@@ -8,7 +8,7 @@ def run(ck):
                       "relative against lexically_relative (NULL iff empty; same path) of libstdc++; each argument in its own exact-size heap block under ASan")
     ck.assumptions += ["POSIX build"]
     if not ck.build_driver(): return
-    if not ck.prove():
+    if not ck.prove(["ZixModel.Properties.C12", "ZixModel.Properties.C12Buf"]):
         ck.report_proof_failure("theorems about join / lexically_relative no longer build")
     exe = pc.build(ck)
     if not exe: return
